@@ -206,6 +206,22 @@ theorem hist_idempotent (c : Codec) (w : World) (b : Option Nat) (s : Strategy)
     have := ensure_idempotent c s w.active (ensureRoutes c s w.active).1 f (by rw [← hr])
     rw [this]
 
+/-- **C15 (iii), no write at all.**  The repeated call does not merely leave the objects unchanged:
+    it issues no `Update` — it succeeds, with `done = true`, even when the API server refuses every
+    write (fault budget 0). -/
+theorem hist_idempotent_no_write (c : Codec) (w : World) (b b' : Option Nat) (s : Strategy)
+    (hok : (runEv c (.step b s) w).2 ≠ some .err) :
+    runEv c (.step b' s) (runEv c (.step b s) w).1 = ((runEv c (.step b s) w).1, some (.ok true)) := by
+  have h := hist_idempotent c w b s hok
+  simp only [runEv, Prod.mk.injEq, Option.some.injEq] at h ⊢
+  rw [ensureRoutesF_none] at h
+  have hfix : ensureRoutes c s (ensureRoutesF c b s w.active).1 = ((ensureRoutesF c b s w.active).1, .ok true) := by
+    apply Prod.ext
+    · have := congrArg World.active h.1; simpa using this
+    · exact h.2
+  rw [ensureRoutesF_fix hfix b']
+  exact ⟨rfl, rfl⟩
+
 /-! ## non-vacuity: concrete histories satisfying every hypothesis
     (these `decide`s are *tests* on literals, not the ∀ claims) -/
 
